@@ -754,7 +754,7 @@ func (h *c28H) run(c c28Case) bool {
 
 func bodyC28(c c28Case, x *vkit.Ctx) {
 	h := &c28H{x: x, reqs: make(chan c28Req, 64), midKinds: map[string]int{}}
-	ln, err := net.Listen("tcp", "127.0.0.1:0")
+	ln, err := loopbackListen()
 	if err != nil {
 		x.Inconclusive("cannot listen on loopback: " + err.Error())
 		return
